@@ -103,10 +103,16 @@ theorem mem_kids_of_get {S : Ord} {d : Db} (hI : ChInv S d) {a : Int} {row : Row
   obtain ⟨hr, hid⟩ := get_some hg
   exact hid ▸ hI.rk.mem row hr
 
-/-- Sibling listings: each changes as prescribed. -/
+theorem row_of_live {d : Db} {c : Int} (h : (absF d).live c = true) : ∃ row, get d.pl c = some row := by
+  cases hg : get d.pl c with
+  | none => rw [live_false_of_get hg] at h; simp at h
+  | some row => exact ⟨row, rfl⟩
+
+/-- Sibling listings: each changes as prescribed (a crate created without a position, or moved to a new parent,
+is the LAST of its new siblings). -/
 theorem kids_change {S : Ord} {d : Db} (hI : ChInv S d) (op : Op) (k : Int) :
-    (kidsChange d op k).holds (S.kids k) ((ordStep S d op).kids k) = true := by
-  unfold kidsChange ordStep
+    (kidsChange (absF d) op (step d op).2 k).holds (S.kids k) ((ordStep S d op).kids k) = true := by
+  unfold kidsChange ordStep ordNext
   cases hres : (step d op).2 with
   | throw e => exact holds_same _
   | ub u => exact holds_same _
@@ -118,7 +124,7 @@ theorem kids_change {S : Ord} {d : Db} (hI : ChInv S d) (op : Op) (k : Int) :
       subst this
       simp only [kidsChangeOk, ordOk]
       by_cases hk : k = 0
-      · subst hk; rw [if_pos rfl, setKey_same]; exact holds_inserted (fresh_pl hI 0)
+      · subst hk; rw [if_pos rfl, setKey_same]; exact holds_appended (fresh_pl hI 0)
       · rw [if_neg hk, setKey_other _ _ hk]; exact holds_same _
     | createRootAfter n a =>
       obtain ⟨h1, row, hg, hrk⟩ := step_createRootAfter_ok hres
@@ -133,7 +139,7 @@ theorem kids_change {S : Ord} {d : Db} (hI : ChInv S d) (op : Op) (k : Int) :
       subst this
       simp only [kidsChangeOk, ordOk]
       by_cases hk : k = p
-      · subst hk; rw [if_pos rfl, setKey_same]; exact holds_inserted (fresh_pl hI k)
+      · subst hk; rw [if_pos rfl, setKey_same]; exact holds_appended (fresh_pl hI k)
       · rw [if_neg hk, setKey_other _ _ hk]; exact holds_same _
     | createSubAfter p n a =>
       obtain ⟨h1, row, hg, hrk⟩ := step_createSubAfter_ok hres
@@ -146,37 +152,37 @@ theorem kids_change {S : Ord} {d : Db} (hI : ChInv S d) (op : Op) (k : Int) :
     | rename c n => cases out <;> exact holds_same _
     | setParent c p =>
       simp only [kidsChangeOk, ordOk]
-      cases hg : get d.pl c with
-      | none => exact holds_same _
-      | some row =>
-        simp only
-        by_cases hkk : (row.key != keyOf p) = true
-        · rw [if_pos hkk, if_pos hkk]
-          have hne : keyOf p ≠ row.key := by intro e; simp [e] at hkk
-          simp only [moveKid]
-          by_cases hk : k = keyOf p
-          · subst hk
-            rw [if_pos rfl, setKey_same, setKey_other _ _ hne]
-            apply holds_inserted
-            intro hc
-            exact hne (hI.rk.key_unique hc (mem_kids_of_get hI hg))
-          · rw [if_neg hk, setKey_other _ _ hk]
-            by_cases hk2 : k = row.key
-            · subst hk2; rw [if_pos rfl, setKey_same]; exact holds_erased _ _
-            · rw [if_neg hk2, setKey_other _ _ hk2]; exact holds_same _
-        · rw [if_neg hkk, if_neg hkk]; exact holds_same _
-    | removeCrate c =>
-      simp only [kidsChangeOk, ordOk]
-      cases hg : get d.pl c with
-      | none => exact holds_same _
-      | some row =>
-        simp only [clearKeys]
-        by_cases hk : (c :: descendantIds d.pl c).contains k = true
-        · rw [if_pos hk, if_pos hk]; exact holds_dropped _
-        · rw [if_neg hk, if_neg hk]
+      by_cases hcond : ((absF d).live c && keyOf ((absF d).parentOf c) != keyOf p) = true
+      · rw [if_pos hcond, if_pos hcond]
+        simp only [Bool.and_eq_true] at hcond
+        obtain ⟨row, hg⟩ := row_of_live hcond.1
+        have hpk : keyOf ((absF d).parentOf c) = row.key := by rw [absF_parentOf_get hg, keyOf_parentOpt]
+        rw [hpk] at hcond ⊢
+        have hne : keyOf p ≠ row.key := by intro e; simp [e] at hcond
+        simp only [moveKid]
+        by_cases hk : k = keyOf p
+        · subst hk
+          rw [if_pos rfl, setKey_same, setKey_other _ _ hne]
+          apply holds_appended
+          intro hc
+          exact hne (hI.rk.key_unique hc (mem_kids_of_get hI hg))
+        · rw [if_neg hk, setKey_other _ _ hk]
           by_cases hk2 : k = row.key
           · subst hk2; rw [if_pos rfl, setKey_same]; exact holds_erased _ _
           · rw [if_neg hk2, setKey_other _ _ hk2]; exact holds_same _
+      · rw [if_neg hcond, if_neg hcond]; exact holds_same _
+    | removeCrate c =>
+      simp only [kidsChangeOk, ordOk]
+      by_cases hl : (absF d).live c = true
+      · rw [if_pos hl, if_pos hl]
+        simp only [clearKeys]
+        by_cases hk : (c :: (absF d).descendants c).contains k = true
+        · rw [if_pos hk, if_pos hk]; exact holds_dropped _
+        · rw [if_neg hk, if_neg hk]
+          by_cases hk2 : k = keyOf ((absF d).parentOf c)
+          · subst hk2; rw [if_pos rfl, setKey_same]; exact holds_erased _ _
+          · rw [if_neg hk2, setKey_other _ _ hk2]; exact holds_same _
+      · rw [if_neg hl, if_neg hl]; exact holds_same _
     | createTrack => cases out <;> exact holds_same _
     | removeTrack t => cases out <;> exact holds_same _
     | addTrack c t =>
@@ -185,7 +191,7 @@ theorem kids_change {S : Ord} {d : Db} (hI : ChInv S d) (op : Op) (k : Int) :
       | some e => simp only [kidsChangeOk, ordOk]; split <;> exact holds_same _
     | removeTrackFrom c t =>
       simp only [kidsChangeOk, ordOk]
-      cases peGet d c t <;> exact holds_same _
+      cases S.find c t 0 <;> exact holds_same _
     | clearTracks c => cases out <;> exact holds_same _
     | peAddBack l t u f =>
       cases out with
@@ -194,7 +200,7 @@ theorem kids_change {S : Ord} {d : Db} (hI : ChInv S d) (op : Op) (k : Int) :
     | peRemove l e => cases out <;> exact holds_same _
     | peClear l => cases out <;> exact holds_same _
 
-theorem fresh_pe {S : Ord} {d : Db} (hI : ChInv S d) (k : Int) : d.peSeq + 1 ∉ S.ents k := by
+theorem fresh_pe {S : Ord} {d : Db} (hI : ChInv S d) (k : Int) : d.peSeq + 1 ∉ S.entIds k := by
   apply hI.re.not_mem_of_fresh
   intro h; have := hI.peSeq _ h; omega
 
@@ -214,10 +220,22 @@ theorem step_addTrack_ok {d : Db} {c t : Int} {out : Out} (h : (step d (.addTrac
     · simp at h
     · exact h
 
-/-- Entry listings: each changes as prescribed. -/
+theorem peFind_none_of_find {S : Ord} {d : Db} (hI : ChInv S d) {l t u : Int} (h : S.find l t u = none) :
+    peFind d l t u = none := by
+  cases hf : peFind d l t u with
+  | none => rfl
+  | some e => rw [hI.find_some hf] at h; simp at h
+
+theorem entIds_setKeyE_at (E : Int → List (Int × Ent)) (c : Int) (L : List (Int × Ent)) (l : Int) :
+    (setKeyE E c L l).map (·.1) = if l = c then L.map (·.1) else (E l).map (·.1) := by
+  by_cases h : l = c
+  · subst h; simp [setKeyE]
+  · simp [setKeyE, h]
+
+/-- Entry listings (entity ids in order): each changes as prescribed. -/
 theorem ents_change {S : Ord} {d : Db} (hI : ChInv S d) (op : Op) (l : Int) :
-    (entsChange d op l).holds (S.ents l) ((ordStep S d op).ents l) = true := by
-  unfold entsChange ordStep
+    (entsChange S (absF d) op (step d op).2 l).holds (S.entIds l) ((ordStep S d op).entIds l) = true := by
+  unfold entsChange ordStep ordNext
   cases hres : (step d op).2 with
   | throw e => exact holds_same _
   | ub u => exact holds_same _
@@ -231,92 +249,89 @@ theorem ents_change {S : Ord} {d : Db} (hI : ChInv S d) (op : Op) (l : Int) :
     | rename c n => cases out <;> exact holds_same _
     | setParent c p =>
       simp only [entsChangeOk, ordOk]
-      cases get d.pl c with
-      | none => exact holds_same _
-      | some row => simp only; split <;> exact holds_same _
+      split <;> exact holds_same _
     | removeCrate c =>
       simp only [entsChangeOk, ordOk]
-      cases hg : get d.pl c with
-      | none =>
-        have : plExists d c = false := by
-          cases he : plExists d c with
-          | false => rfl
-          | true => exact absurd (plExists_iff.mp he) (get_none hg)
-        simp only [this, Bool.false_and, Bool.false_eq_true, if_false]
-        exact holds_same _
-      | some row =>
-        have : plExists d c = true := plExists_iff.mpr (get_isSome_iff.mp (by rw [hg]; rfl))
-        simp only [this, Bool.true_and, clearKeys]
+      by_cases hl : (absF d).live c = true
+      · rw [if_pos hl]
+        simp only [hl, Bool.true_and, Ord.entIds, clearKeysE]
         split
         · exact holds_dropped _
         · exact holds_same _
+      · rw [if_neg hl]
+        have : (absF d).live c = false := by simpa using hl
+        simp only [this, Bool.false_and, Bool.false_eq_true, if_false]
+        exact holds_same _
     | createTrack => cases out <;> exact holds_same _
     | removeTrack t =>
-      simp only [entsChangeOk, ordOk]
+      simp only [entsChangeOk, ordOk, Ord.entIds]
       split
-      · cases peGet d l t with
+      · cases hf : S.find l t 0 with
         | none => exact holds_same _
-        | some e => exact holds_erased _ _
+        | some p =>
+          simp only
+          rw [map_fst_dropEnt (hI.re.nodup l)]
+          exact holds_erased _ _
       · exact holds_same _
     | addTrack c t =>
       cases out with
       | none => exact holds_same _
       | some e =>
         simp only [entsChangeOk, ordOk]
-        cases hg : peFind d c t 0 with
+        cases hg : S.find c t 0 with
         | some e0 => simp only [Option.isNone_some, Bool.and_false, Bool.false_eq_true, if_false]; exact holds_same _
         | none =>
-          have he := peAddBack_new hg (step_addTrack_ok hres)
+          have he := peAddBack_new (peFind_none_of_find hI hg) (step_addTrack_ok hres)
           simp only [Option.some.injEq] at he
           subst he
-          simp only [Option.isNone_none, Bool.and_true, if_true]
+          simp only [Option.isNone_none, Bool.and_true, if_true, Ord.entIds, entIds_setKeyE_at]
           by_cases hl : l = c
           · subst hl
-            simp only [decide_true, if_true, setKey_same]
+            simp only [decide_true, if_true, List.map_append, List.map_cons, List.map_nil]
             exact holds_appended (fresh_pe hI l)
-          · simp only [hl, decide_false, Bool.false_eq_true, if_false, setKey_other _ _ hl]
+          · simp only [hl, decide_false, Bool.false_eq_true, if_false]
             exact holds_same _
     | removeTrackFrom c t =>
       simp only [entsChangeOk, ordOk]
-      cases peGet d c t with
+      cases hf : S.find c t 0 with
       | none => exact holds_same _
-      | some e =>
-        simp only
+      | some p =>
+        simp only [Ord.entIds, entIds_setKeyE_at]
         by_cases hl : l = c
-        · subst hl; rw [if_pos rfl, setKey_same]; exact holds_erased _ _
-        · rw [if_neg hl, setKey_other _ _ hl]; exact holds_same _
+        · subst hl; rw [if_pos rfl, if_pos rfl, map_fst_dropEnt (hI.re.nodup l)]; exact holds_erased _ _
+        · rw [if_neg hl, if_neg hl]; exact holds_same _
     | clearTracks c =>
-      simp only [entsChangeOk, ordOk]
+      simp only [entsChangeOk, ordOk, Ord.entIds, entIds_setKeyE_at]
       by_cases hl : l = c
-      · subst hl; rw [if_pos rfl, setKey_same]; exact holds_dropped _
-      · rw [if_neg hl, setKey_other _ _ hl]; exact holds_same _
+      · subst hl; rw [if_pos rfl, if_pos rfl]; exact holds_dropped _
+      · rw [if_neg hl, if_neg hl]; exact holds_same _
     | peAddBack c t u f =>
       cases out with
       | none => exact holds_same _
       | some e =>
         simp only [entsChangeOk, ordOk]
-        cases hg : peFind d c t u with
+        cases hg : S.find c t u with
         | some e0 => simp only [Option.isNone_some, Bool.and_false, Bool.false_eq_true, if_false]; exact holds_same _
         | none =>
-          have he := peAddBack_new hg (f := f) hres
+          have he := peAddBack_new (peFind_none_of_find hI hg) (f := f) hres
           simp only [Option.some.injEq] at he
           subst he
-          simp only [Option.isNone_none, Bool.and_true, if_true]
+          simp only [Option.isNone_none, Bool.and_true, if_true, Ord.entIds, entIds_setKeyE_at]
           by_cases hl : l = c
           · subst hl
-            simp only [decide_true, if_true, setKey_same]
+            simp only [decide_true, if_true, List.map_append, List.map_cons, List.map_nil]
             exact holds_appended (fresh_pe hI l)
-          · simp only [hl, decide_false, Bool.false_eq_true, if_false, setKey_other _ _ hl]
+          · simp only [hl, decide_false, Bool.false_eq_true, if_false]
             exact holds_same _
     | peRemove c e =>
-      simp only [entsChangeOk, ordOk]
+      simp only [entsChangeOk, ordOk, Ord.entIds, entIds_setKeyE_at]
       by_cases hl : l = c
-      · subst hl; rw [if_pos rfl, setKey_same]; exact holds_erased _ _
-      · rw [if_neg hl, setKey_other _ _ hl]; exact holds_same _
+      · subst hl; rw [if_pos rfl, if_pos rfl, map_fst_dropEnt (hI.re.nodup l)]; exact holds_erased _ _
+      · rw [if_neg hl, if_neg hl]; exact holds_same _
     | peClear c =>
-      simp only [entsChangeOk, ordOk]
+      simp only [entsChangeOk, ordOk, Ord.entIds, entIds_setKeyE_at]
       by_cases hl : l = c
-      · subst hl; rw [if_pos rfl, setKey_same]; exact holds_dropped _
-      · rw [if_neg hl, setKey_other _ _ hl]; exact holds_same _
+      · subst hl; rw [if_pos rfl, if_pos rfl]; exact holds_dropped _
+      · rw [if_neg hl, if_neg hl]; exact holds_same _
 
 end EngineModel.Db.V2
